@@ -46,7 +46,7 @@ def _assign(x, n, v):
     return x
 
 
-def dtype_routes_isolation(tier='quick', seed=0):
+def dtype_routes_isolation(tier='quick', seed=0, only=None):
     """bounded, native: for every dtype in the real register and each creation route into a *mutable* bitstring (keyword, property
     assignment, pack, format string), an in-place change of the created object must not show in an independently created twin, in a
     later creation with the same value (by any route), or in an immutable Bits made afterwards"""
@@ -64,7 +64,7 @@ def dtype_routes_isolation(tier='quick', seed=0):
         x.append('0b1')
 
     for name, defn in sorted(dtype_register.names.items()):
-        if name == 'pad' or defn.set_fn is None:
+        if name == 'pad' or defn.set_fn is None or (only is not None and name not in only):
             continue
         for value, L in _sample_values(defn, rng):
             kw = {name: value}
